@@ -213,6 +213,35 @@ let check_threads acc ~tier =
      | Signaled (sg, _) -> fail acc ~kind:"spec_violation" ~what:(Printf.sprintf "[C15,C14] the process stopped (signal %d) while several threads compressed and decompressed their own buffers" sg) (Lazy.force case))
   done
 
+(* many round trips in ONE process and on one thread, every algorithm, buffers of very different sizes in an order that
+   alternates empty, tiny, large and boundary-sized ones: a wrapper that carries state from one call to the next (a
+   remembered size, a reused buffer, a cached context) shows here and nowhere in the forked single round trips *)
+let check_sequences acc st ~tier =
+  let sizes = [ 0; 1; 5000; 0; 65535; 65536; 131070; 0; 64; 200000; 1; 0; 65534; 300; 0; 1048576; 7 ] in
+  let sizes = if tier = "thorough" then sizes @ [ 196605; 0; 2097152; 0; 3 ] else sizes in
+  for alg = 1 to 5 do
+    Array.iter (fun lvl ->
+      let case = lazy (JO [ "op", JS "round trips in one process"; "algorithm", JI alg; "level", (match lvl with None -> JNull | Some l -> JI l); "sizes", JL (List.map (fun n -> JI n) sizes) ]) in
+      record acc ~key:(Printf.sprintf "seq-%d-%s" alg (match lvl with None -> "d" | Some l -> string_of_int l)) ~nontrivial:true ~klass:"sequence_one_process" case;
+      let r = in_child (fun () ->
+          let bad = ref "" in
+          List.iteri (fun i n ->
+            if !bad = "" then begin
+              let s = content st (i mod 4) n in
+              (match (match lvl with None -> Wr.c_compress alg false 0 s | Some l -> Wr.c_compress alg true l s) with
+               | None -> bad := Printf.sprintf "compress failed at call %d (%d bytes)" i n
+               | Some z -> (match Wr.c_decompress alg z with
+                   | None -> bad := Printf.sprintf "decompress failed at call %d (%d bytes)" i n
+                   | Some d -> if d <> s then bad := Printf.sprintf "round trip differs at call %d (%d bytes)" i n))
+            end) sizes;
+          if !bad = "" then "OK" else !bad) in
+      (match r with
+       | Exited (_, "OK") -> ()
+       | Exited (_, msg) -> fail acc ~kind:"spec_violation" ~what:"[C15] a compression round trip fails when it follows other round trips in the same process" (JO [ "case", Lazy.force case; "what", JS msg ])
+       | Signaled (sg, _) -> fail acc ~kind:"spec_violation" ~what:"[C15] the compression wrapper stopped the process in a sequence of round trips" (JO [ "case", Lazy.force case; "signal", JI sg ])))
+      [| None; Some 0; Some 1; Some (-5); Some 9 |]
+  done
+
 let run ~tier ~seed ~only acc =
   let idx = ref 0 in
   let want () = cur_index := !idx; (match only with None -> true | Some i -> i = !idx) in
@@ -220,6 +249,7 @@ let run ~tier ~seed ~only acc =
   if want () then check_threads acc ~tier; incr idx;
   if want () then check_bounds acc ~tier; incr idx;
   if want () then check_huge acc; incr idx;
+  if want () then check_sequences acc (case_rng ~seed ~engine ~index:!idx) ~tier; incr idx;
   let st0 = case_rng ~seed ~engine ~index:0 in
   (* every small length x contents x algorithm, default level; levels sampled *)
   for n = 0 to 64 do
